@@ -184,7 +184,7 @@ func startStacking(run *lib.Run, s *stacking, origin *lib.Origin, ca *lib.CA) er
 }
 
 func main() {
-	run := lib.Start("C15", "stall-point enumeration against the real binary, one child per listener stacking (plain, TLS, PROXY protocol, PROXY+TLS, plain+MITM, plain and PROXY protocol with read-header-timeout 0) with idle-timeout 3.0 s, read-header-timeout 1.5 s, tls-handshake-timeout 2.0 s, PROXY header timeout 2.5 s: peers stall before any byte, after k bytes of a PROXY header / ClientHello / request head (also when its first octets arrive in the same segment as the previous request), between requests, after CONNECT+200 and inside the MITM handshake; decisive lower bound (never closed before limit - 100 ms, timed from before the event that starts the limit on the client's monotonic clock), heartbeat-qualified upper bound (limit + 2 s); requests fully sent with the origin gated for 5 s must be answered; connections that keep making progress for 5 s (tunnel in steady use, tunnel target answering after 5 s, body arriving steadily) must be served; with K in {1, 8, 64} stalled peers a probe client must be served before any of them is timed out, judged against a control child; distinct = (stacking, stall point, k class) signatures")
+	run := lib.Start("C15", "stall-point enumeration against the real binary, one child per listener stacking (plain, TLS, PROXY protocol, PROXY+TLS, plain+MITM, plain and PROXY protocol with read-header-timeout 0, PROXY protocol with idle-timeout 30 s for the header cases only) with idle-timeout 3.0 s, read-header-timeout 1.5 s, tls-handshake-timeout 2.0 s, PROXY header timeout 2.5 s: peers stall before any byte, after k bytes of a version 1 or version 2 PROXY header / ClientHello / request head (also when its first octets arrive in the same segment as the previous request), between requests, after CONNECT+200 and inside the MITM handshake; decisive lower bound (never closed before limit - 100 ms, timed from before the event that starts the limit on the client's monotonic clock), heartbeat-qualified upper bound (limit + 2 s); requests fully sent with the origin gated for 5 s must be answered; connections that keep making progress for 5 s (tunnel in steady use, tunnel target answering after 5 s, body arriving steadily, a PROXY header of either version delivered in two segments 120 ms apart) must be served; with K in {1, 8, 64} stalled peers a probe client must be served before any of them is timed out, judged against a control child; distinct = (stacking, stall point, k class) signatures")
 	hb := lib.StartHeartbeat()
 	origin := lib.MustOrigin("origin", "127.0.0.1:0", nil, func(oc *lib.OConn, req *lib.Msg) lib.Action {
 		if strings.Contains(req.Target, "/slow") {
